@@ -190,7 +190,8 @@ def run(run):
         run.violation("build-ocaml", {"log": log[-3000:]}, "model driver does not build", True)
         return
     acc = Acc()
-    xfile = os.path.join(C.BUILD, "c07_xcheck_%s.v" % run.tier)
+    os.makedirs(C.VMDIR, exist_ok=True)
+    xfile = os.path.join(C.VMDIR, "C07_c07_cases.v")
     if os.path.exists(xfile):
         os.unlink(xfile)
     # corpus first (includes the witnesses of the repaired defect F14 as regressions)
@@ -230,14 +231,8 @@ def run(run):
     report(run, acc)
     # kernel re-evaluation of sampled executions (extraction cross-check)
     xok = None
-    if os.path.exists(xfile) and proof_ok:
-        with C.Lock("coq"):
-            rc, out = C.sh(["timeout", "600", "coqc"] + C.coq_flags() + [xfile], cwd=C.COQ)
-        xok = rc == 0
-        if not xok:
-            run.violation("corr-extraction", {"file": xfile, "log": out[-2000:],
-                                              "theorem": "extracted OCaml model = Coq model (vm_compute re-evaluation of sampled executions)"},
-                          "a sampled execution re-evaluated inside Coq disagrees with the extracted model/implementation", True)
+    if proof_ok:
+        xok = C.vm_crosscheck_file(run, "c07", xfile, acc.stats.get("emitted", 0))
     n_runner, bad_runner = runners(run)
     if shape_broken:
         # C07_runners_shape no longer holds (props/C07.v failed to build -> reported by proof_leg as a broken
